@@ -5,17 +5,22 @@ import os, subprocess
 import common as C, core, gen, p_seq, p_recover
 
 core.register("C04", "Props.C04", "theories/Props/C04.vo",
-              ["C04_ack_after_sync", "C04_synced_le_written", "C04_once_in_order", "C04_exactly_once"])
+              ["C04_ack_after_sync", "C04_synced_le_written", "C04_once_in_order", "C04_exactly_once",
+               "C04_ack_after_sync_from", "C04_once_in_order_from", "C04_exactly_once_from", "C04_from_nil",
+               "C04_restart_needs_older_synced", "C04_from_nonvacuous"])
 core.register("C08", "Props.C08", "theories/Props/C08.vo",
               ["C08_removed_after_durable", "C08_oldest_first", "C08_liveness", "C08_pop_obsolete_spec_partial",
-               "C08_only_dead_partial"])
-core.register("C14", "Props.C14", "theories/Props/C14.vo", ["C14_quiescent", "C14_drain_terminates"])
+               "C08_only_dead_partial", "C08_removed_after_durable_from", "C08_oldest_first_from", "C08_liveness_from",
+               "C08_restart_needs_older_synced"])
+core.register("C14", "Props.C14", "theories/Props/C14.vo",
+              ["C14_quiescent", "C14_drain_terminates", "C14_reopen_after_drop", "C14_reopen_after_drop_no_truncate",
+               "C14_flushed_dominates_acked", "C14_reopen_nonvacuous", "C14_quiescent_from", "C14_drain_terminates_from"])
 core.register("C03", "Props.C03", "theories/Props/C03.vo", ["C03_prefix", "C03_nonvacuous", "C03_nonvacuous_purged"])
 core.register("C05", "Props.C05", "theories/Props/C05.vo",
               ["C05_refuted_gap", "C05_recovers_outside_known", "C05_process_crash_is_image"])
 core.register("C07", "Props.C07", "theories/Props/C07.vo",
               ["C07_refuted_live", "C07_reads_total_outside_known", "C07_boundary_in_force_is_not_enough",
-               "C07_reads_total_outside_known_L2"])
+               "C07_reads_total_outside_known_L2", "C07_restart_reads_total", "C07_restart_continue", "C07_restart_refuted"])
 
 
 # ------------------------------------------------------------------ running traces
@@ -419,6 +424,30 @@ def run_C04(ctx):
             bad += 1
             ctx.fail("oracle", "C04 oracle: without failures every flush callback must fire exactly once with Ok: requested %d, fired %s" % (v.next_cb, v.acks[:20]),
                      dict(kind="trace", case=c[:4000]))
+    # the crate's own callback type (impl Callback for SyncSender): one bounded channel shared by
+    # all flushes of a case, drained only after every flush has been issued, so the worker meets a
+    # full (or rendezvous) channel when it delivers; every acknowledgement must still arrive, once
+    sscases = ["SSACK %d %d %d" % (cap, k, mr) for cap in (0, 1, 2, 8) for k, mr in ((1, 5), (2, 100), (8, 3), (rnd.randint(9, 40), rnd.choice([1, 2, 7, 100000])))]
+    cf, of = os.path.join(ctx.wd, "ssack.cases"), os.path.join(ctx.wd, "ssack.out")
+    open(cf, "w").write("\n".join(sscases) + "\n")
+    if os.path.exists(of):
+        os.remove(of)
+    try:
+        subprocess.run([C.harness_bin(), "ssack", cf, of], env=C.ENV, stdout=subprocess.DEVNULL, stderr=subprocess.DEVNULL, timeout=600)
+    except subprocess.TimeoutExpired:
+        pass
+    ssout = open(of).read().split("\n") if os.path.exists(of) else []
+    ssbad = 0
+    for i, c in enumerate(sscases):
+        k = int(c.split()[2])
+        r = ssout[i] if i < len(ssout) else "hang"
+        if r != "ssack got=%d ok=%d" % (k, k):
+            ssbad += 1
+            bad += 1
+            ctx.fail("oracle", "C04 oracle: %d flushes acknowledged through SyncSender callbacks on one shared bounded channel, no failure injected: every callback must arrive exactly once with Ok; observed `%s`" % (k, r),
+                     dict(kind="ssack", case=c, observed=r))
+    ctx.k_checks["oracle-syncsender-callbacks-exactly-once"] = (ssbad == 0, len(sscases))
+    ctx.count("syncsender_callback_cases", len(sscases))
     nacks = sum(len(v.acks) for v in views if v)
     ctx.count("callbacks_checked", nacks)
     ctx.count("failed_syncs_injected", sum(l.count("sync") and l.count(" fail") for l in logs))
@@ -633,6 +662,58 @@ def run_crash(ctx, prop):
             if cls:
                 rp["class"] = cls
             ctx.fail("oracle", "%s oracle: %s" % (prop, why), rp)
+    # a chunk rotation that FAILS on the caller thread (the next chunk file cannot be created) with
+    # journalled bytes pending, then a flush that is acknowledged, then the crash before any later
+    # write: everything was acknowledged, so every crash image must show exactly the state and
+    # entries the live store reported after the acknowledgement (judged on the implementation; the
+    # model has no caller-side I/O failure). The recovery of these images is compared with the model.
+    fcases = []
+    for j in range(ctx.scale(10, 60)):
+        recs = rnd.choice([3, 4, 5, 6])
+        fcfg = "100000 1073741824 %d 1073741824 1 64" % recs
+        pre = rnd.randint(0, 2)
+        items = ["A 1 0 x00", "F 1", "wi"] if pre == 0 else ["A 1 0 x00"] if pre == 1 else ["V 1 1", "A 1 0 x00", "F 0"]
+        nrec = 1 + (2 if pre == 2 else 1)            # head snapshot + records so far
+        i = 1
+        while nrec < recs - 1:
+            items.append("A 1 %d x%02x" % (i, i)); i += 1; nrec += 1
+        items += ["cfault create 1", rnd.choice(["A 1 %d x77" % i, "V 7 7", "C 1 0"])]      # fills the chunk: the rotation fails
+        items += [rnd.choice(["F 1 ; wi", "F 1 ; w 1 ; wi", "F 0 ; wi ; F 1 ; wi"]), "G", "R 0 100000", "snap"]
+        fcases.append("TRACE %s | %s" % (fcfg, " ; ".join(items)))
+    flogs = run_traces(fcases, ctx.wd, prop.lower() + "f")
+    fviews, _ = analyse(ctx, prop, fcases, flogs, [True] * len(fcases))
+    fcfgs = [c.split("|")[0].replace("TRACE", "").strip() for c in fcases]
+    fimgs, fmeta = crash_cases(ctx, fcases, fviews, fcfgs)
+    fimpl = C.run_impl(fimgs, ctx.wd, "crashimgf")
+    fmodel = C.run_model(fimgs, ctx.wd, "crashimgf")
+    core.compare(ctx, "recover-crash-images-after-failed-rotation", fimgs, fimpl, fmodel)
+    ctx.count("failed_rotation_crash_images", len(fimgs))
+    for c, m, a in zip(fimgs, fmeta, fimpl):
+        ev = [e.strip() for e in flogs[m["trace"]].split(" ; ")]
+        live_stat = [e for e in ev[: m["at_event"]] if e.startswith("c ret stat")]
+        live_read = [e for e in ev[: m["at_event"]] if e.startswith("c ret read")]
+        acks = [e for e in ev[: m["at_event"]] if e.startswith("w cb ")]
+        if not live_stat or not live_read or not acks or not acks[-1].endswith(" ok"):
+            continue
+        f = p_seq.fields(a)
+        why = None
+        if "panic" in f:
+            why = "recovery (or an operation after it) panicked"
+        elif f[0].startswith("openerr"):
+            if prop == "C05":
+                why = "the directory does not open after a crash that followed a failed chunk rotation and an acknowledged flush: " + f[0]
+        elif f[0] == "opened":
+            want = (p_seq.state_of_stat(live_stat[-1]), live_read[-1][len("c ret "):])
+            got = (p_seq.state_of_stat(f[1]), f[2])
+            if prop == "C03" and got != want:
+                why = "everything was acknowledged before the crash (a flush after a failed chunk rotation reported success), but recovery shows `%s / %s` instead of `%s / %s`" % (got[0], got[1][:200], want[0], want[1][:200])
+            elif prop == "C05" and (not (f[-2].startswith("stat") and f[-1].startswith("read")) or any(x.startswith("err") for x in f[3:9])):
+                why = "the recovered store does not stay usable (writes, flush, second restart): " + " ; ".join(f[3:])[:300]
+        if why:
+            bad += 1
+            ctx.fail("oracle", "%s oracle: %s" % (prop, why),
+                     dict(kind="image", case=c[:8000], from_trace=fcases[m["trace"]][:3000], mutation={k: v for k, v in m.items()}, observed=a[:800]))
+    imgs = imgs + fimgs
     # collapse known-class failures
     keep, seen = [], set()
     for fl in ctx.failures:
@@ -835,6 +916,11 @@ def run_C14(ctx):
             # a long hold: a drop that gives up waiting for the worker after a deadline shows only here
             kind = "dropheld %d" % ctx.scale(3500, 12000)
             hold = rnd.choice([1, 2, 3])
+        elif kind == "dropheld" and rnd.random() < 0.5:
+            # dropped the way another store's flush callback would drop it: on a thread that
+            # carries the FlushWorker's thread name
+            kind = "dropheld 150 cb"
+            ctx.count("drop_on_worker_named_thread")
         if rnd.random() < 0.3:
             items.append("DSK")            # a snapshot that outlives the store must not keep the directory locked
         items += ["F 1", "w %d" % hold, kind, "release", "open " + cfg, "G", "R 0 100000"]
@@ -1100,6 +1186,43 @@ def run_C07(ctx):
                 bad += 1
                 ctx.fail("oracle", "C07 oracle: a read of a live entry failed while the worker was at some position: " + r[:200], rp)
                 break
+    # (3) a chunk rotation that fails on the caller thread (the next chunk file cannot be created)
+    # and is retried by the next write; then flush, idle, reads. The same schedule under a big
+    # cache and under a cache that keeps nothing evictable must read the same entries, without
+    # error (judged on the implementation alone: the model has no caller-side I/O failure)
+    fr_sched = []
+    for j in range(ctx.scale(10, 60)):
+        R = rnd.choice([3, 4, 5, 6])
+        items, idx = [], 0
+        for _ in range(R - 2):
+            items.append("A 1 %d %s" % (idx, gen.hx(gen.rand_payload(rnd, big=0.0)))); idx += 1
+        if rnd.random() < 0.5:
+            items.insert(rnd.randint(0, len(items)), "F 1")
+        items += ["cfault create 1", rnd.choice(["A 1 %d x77" % idx, "V 3 3"])]
+        if items[-1].startswith("A"):
+            idx += 1
+        for _ in range(rnd.randint(1, R + 1)):
+            items.append("A 1 %d %s" % (idx, gen.hx(gen.rand_payload(rnd, big=0.0)))); idx += 1
+        items += ["F 1", "wi", "G", "R 0 100000", "D"]
+        fr_sched.append((R, " ; ".join(items)))
+    fr_cases = []
+    for R, sch in fr_sched:
+        fr_cases.append("TRACE 100000 1073741824 %d 1073741824 1 64 | %s" % (R, sch))
+        fr_cases.append("TRACE %d %d %d 1073741824 1 %d | %s" % (rnd.choice([0, 1]), rnd.choice([0, 1, 1 << 30]), R, rnd.choice(gen.CFG_RBUF), sch))
+    fr_logs = run_traces(fr_cases, ctx.wd, "c07fr")
+    ctx.count("reads_after_failed_rotation", len(fr_cases))
+    for q in range(0, len(fr_cases), 2):
+        outs = []
+        for l in fr_logs[q:q + 2]:
+            ev = [e.strip() for e in l.split(" ; ")]
+            outs.append([e for e in ev if e.startswith("c ret read") or e.startswith("c ret iter") or e.startswith("c ret dump")])
+        big, tiny = outs
+        if fr_logs[q] in ("hang", "harness-panic") or fr_logs[q + 1] in ("hang", "harness-panic"):
+            continue
+        if big != tiny or any("err:" in e or "panic" in e for e in tiny):
+            bad += 1
+            ctx.fail("oracle", "C07 oracle: after a failed and retried chunk rotation the entries read under a tiny cache differ from those read under a big cache (or a read fails): big `%s` tiny `%s`" % (" | ".join(big)[:400], " | ".join(tiny)[:400]),
+                     dict(kind="trace", case=fr_cases[q + 1][:4000], trace=fr_logs[q + 1][:5000], big_cache_case=fr_cases[q][:4000]))
     keep, seen = [], set()
     for fl in ctx.failures:
         cl = fl["replay"].get("class")
